@@ -57,6 +57,18 @@ PROPS = {
                                                'quick': {'MAXLEN': '2', 'PAIRS': 'FALSE'}, 'thorough': {'MAXLEN': '2', 'PAIRS': 'TRUE'},
                                                'quick_all': True, 'thorough_all': True}),
                 fam('filt', 'rnd', 24, 300)]},
+    'C05': {'level': 'model_checking', 'assumptions': [],
+            'mc': [{'module': 'MCBuffer', 'cfg': 'MC_Buffer.cfg', 'constants': {}, 'quick': {'MAXLEN': '4'}, 'thorough': {'MAXLEN': '5'}, 'deadlock': True},
+                   {'module': 'MCBuffer', 'cfg': 'MC_Buffer.cfg', 'constants': {}, 'quick': {'MAXLEN': '4'}, 'thorough': {'MAXLEN': '5'}, 'asbuilt': True, 'deadlock': True}],
+            'trace': {'module': 'BufferTrace', 'cfg': 'BufferTrace.cfg'},
+            'families': [
+                fam('buf', 'tlc', 8, 16, shards=8, gen={'module': 'GenBuffer', 'cfg': 'GenBuffer.cfg', 'arg': '-chains', 'cover': 250,
+                    'quick': {'MAXLEN': '2', 'KINDS': '{"del", "ins", "put", "mrg", "t", "f"}', 'WIDTHS': '{"w2", "w8", "s1", "s128"}',
+                              'MOVES': '{"same", "next", "m128", "m16384", "back", "home"}'},
+                    'thorough': {'MAXLEN': '3', 'KINDS': '{"del", "put", "mrg", "f"}', 'WIDTHS': '{"w2", "w4", "w8", "s0", "s127", "s128"}',
+                                 'MOVES': '{"same", "next", "small", "m128", "m16384", "jump", "back", "home"}'},
+                    'quick_all': True, 'thorough_all': True}),
+                fam('buf', 'rnd', 16, 400, shards=8)]},
     'C06': seq_prop('c06', 60, 1500, mc=[MC_CONC_STRICT, MC_CONC_LOG, MC_CONC_ASBUILT, MC_CONC_NEG],
                     more=[fam('conc', 'c06', 24, 400), fam('conc', 'c06dfs', 1, 16)]),
     'C07': seq_prop('c07', 120, 2000, mc=[MC_SNAP], more=[fam('seq', 'c07k', 40, 500)]),
